@@ -16,8 +16,11 @@ def _keys(model_name):
     if model_name not in _KEYS:
         from lingpy.settings import rcParams
         m = rcParams[model_name]
+        # chosen by the TOKEN only (never by the class the current converter gives it: an edited converter
+        # must not be able to hide its own effect)
         _KEYS[model_name] = sorted(k for k, v in m.converter.items()
-                                   if len(k) == 1 and k.strip() and k not in "-+_#◦·0" and v not in "0_+-X")
+                                   if len(k) == 1 and k.strip() and k not in "-+_#◦·0" and not k.isdigit()
+                                   and k not in "¹²³⁴⁵⁶⁰₁₂₃₄₅₆₀˥˦˧˨˩")
     return _KEYS[model_name]
 
 
